@@ -497,7 +497,9 @@ impl Engine for RegexEngine {
     }
 
     fn hang_is_violation(&self, _prop: &str) -> bool {
-        matches!(self.kind, Kind::C02 | Kind::C04 | Kind::C05 | Kind::C19)
+        // every regex check calls functions that are stated to return a result; the reference work is done before a case
+        // is published, so only the code under test (and the product walk over its finite answers) runs inside a case
+        true
     }
     fn max_group(&self, _ctx: &Ctx, batch: usize) -> usize {
         // the reference cross-validation slices are heavy: one per worker
@@ -528,7 +530,7 @@ fn run_chunk(kind: Kind, tier: Tier, fi: usize, f: &dyn Family, lo: usize, hi: u
                 clear_current_case();
                 let rf = ch.cache.dfa(p);
                 beat();
-                set_current_case(json!({"kind": kind.id(), "universe": u.id, "prog": p.show(), "shallow": shallow}));
+                set_current_case(json!({"__engine": "regex", "kind": kind.id(), "universe": u.id, "prog": p.show(), "shallow": shallow}));
                 let mut msgs = vec![];
                 let mut local = Report::new();
                 check_program(&mut ch, p, &rf, *shallow, &mut local, &mut msgs);
@@ -821,6 +823,24 @@ fn check_c02(ch: &mut Chunk<'_>, t: RegLan, rf: &Dfa, shallow: bool, rep: &mut R
             break;
         }
     }
+    // str_next from every state (not only the initial one) is the fold of next
+    let nwords = pr.nodes.len().min(12);
+    'outer: for st in a.states().take(48) {
+        for i in 0..nwords {
+            let w = pr.word(i);
+            let sw = sword(&w);
+            rep.inc("str_next_calls");
+            let mut cur = st;
+            for &c in &w {
+                cur = a.next(cur, c);
+            }
+            let got = a.str_next(st, &sw);
+            if got.id() != cur.id() {
+                msgs.push(format!("str_next(state {}, {}) = {} but stepping with next gives {}", st.id(), show_word(&w), got.id(), cur.id()));
+                break 'outer;
+            }
+        }
+    }
     // try_compile with the exact bound must succeed and be the same language
     // C02 speaks about try_compile only "when it returns Some" (whether it must is C19's business)
     match ch.re.try_compile(t, n) {
@@ -847,9 +867,18 @@ pub fn check_counts(a: &Automaton, msgs: &mut Vec<String>) {
     if a.states().count() != n {
         msgs.push(format!("num_states() = {} but states() yields {}", n, a.states().count()));
     }
-    for (i, s) in a.states().enumerate() {
-        if s.id() != i {
-            msgs.push(format!("state at position {} has id {}", i, s.id()));
+    // ids identify states: pairwise different, and state(id) is the state with that id (the order in which
+    // states() yields them is not specified)
+    let mut ids: Vec<usize> = a.states().map(|s| s.id()).collect();
+    ids.sort_unstable();
+    ids.dedup();
+    if ids.len() != a.states().count() {
+        msgs.push("two states have the same id".to_string());
+        return;
+    }
+    for s in a.states() {
+        if s.id() >= n || a.state(s.id()).id() != s.id() {
+            msgs.push(format!("state(id) does not return the state with id {}", s.id()));
             return;
         }
     }
@@ -857,8 +886,10 @@ pub fn check_counts(a: &Automaton, msgs: &mut Vec<String>) {
     if a.num_final_states() != nf {
         msgs.push(format!("num_final_states() = {} but {} states are final", a.num_final_states(), nf));
     }
-    let fl: Vec<usize> = a.final_states().map(|s| s.id()).collect();
-    let ex: Vec<usize> = a.states().filter(|s| s.is_final()).map(|s| s.id()).collect();
+    let mut fl: Vec<usize> = a.final_states().map(|s| s.id()).collect();
+    let mut ex: Vec<usize> = a.states().filter(|s| s.is_final()).map(|s| s.id()).collect();
+    fl.sort_unstable();
+    ex.sort_unstable();
     if fl != ex {
         msgs.push(format!("final_states() yields {:?} but the final states are {:?}", fl, ex));
     }
